@@ -20,9 +20,10 @@ PROPS = {
         "claimed": True,
         "technique": "Coq proof (computation, ring, case analysis on comparisons) over programs translated from the compiled generic code by symbolic execution",
         "level_text": "3787 entry points: for each of the 13 vector types (dimensions 2..64) every arithmetic/bitwise/shift operator in its 9 owned/borrowed/scalar/compound-assignment forms (plus scalar-on-the-left add/mul, whose macro body is lifted verbatim from src/vec.rs), Neg/Not, the 8 MulAdd forms and the inherent mul_add with broadcast, sum/product/average/reduce/reduce_min/max/bit reductions/dot/magnitude_squared/iterator Sum and Product/sign tests, min/max/map/apply/zip families/hadd/sqrt..round, and 21 constructors, conversions and views are translated from the real code and proved in Coq, for ALL element values in ANY commutative ring with arbitrary division, remainder, bit, shift, min/max and comparison operations, to equal the dimension-generic per-element definition in element order. Comparison masks, partial_min/max and reduce_partial_min/max are proved on free symbols for all lanes at once up to 8 lanes (every one of the up to 256 outcome combinations) and one free lane at a time against a constant background for 16/32/64 lanes. Unit tests never compute a binary operator on distinct elements.",
-        "level_note": "Partial cells: for Vec16/32/64 the comparison-mask family is decided per lane (2^64 joint outcomes cannot be enumerated); reduce_partial_min/max are not translated for those three types; reduce_and/reduce_or/reduce_ne on the concrete bool/integer/float instantiations are not generic code and are outside the translation. Trusted: Coq kernel; symx translator (re-run from /repo on every check, self-checked against the same code on f64 where f64 has the trait); Rust parametricity in the scalar type. Theorems print 'Closed under the global context'.",
+        "level_note": "Partial cells: for Vec16/32/64 the comparison-mask family is decided per lane (2^64 joint outcomes cannot be enumerated); reduce_partial_min/max are not translated for those three types; reduce_and/reduce_or/reduce_ne on the concrete bool/integer/float instantiations are not generic code: they are modelled by hand (model/BoolReduce.v, theorems C02_bool_reduce_*) and tied to the code by running the extracted model against the real methods (70k patterns quick), which is testing, not proof. Trusted: Coq kernel; symx translator (re-run from /repo on every check, self-checked against the same code on f64 where f64 has the trait); Rust parametricity in the scalar type. Theorems print 'Closed under the global context'.",
         "design_ref": "DESIGN.md section 7, C02",
         "assumptions": ["scalar operations are exact commutative-ring operations; division, remainder, bit operations, shifts, min/max, rounding functions are uninterpreted per-element operations", "comparisons are an arbitrary pair of boolean relations lt/eq with <=, >=, >, != derived as for a total order (no NaN)", "user closures are arbitrary pure functions"],
+        "trusted_extra": ["Coq extraction to OCaml of model/BoolReduce.v (Require Import ExtrOcamlBasic only: bool, list, prod, option, unit, sumbool mapped to OCaml's; no Extract Constant) plus extract/driver_boolred.ml and the harness symx/src/corr_boolred.rs, which decides 'element is not zero' for each generated element"],
         "selfcheck": {"quick": 20, "thorough": 300},
     },
     "C03": {
@@ -140,6 +141,7 @@ PROPS = {
         "technique": "Coq proof over translated programs (ring/field/nsatz, sin/cos addition formulas, acos) for the generic code; hand-written Gallina model of the non-generic integer impls with theorems, extracted to OCaml and run against the real code on the same inputs",
         "level_text": "scalar/vector/quaternion/Transform Lerp (109 entry points): from at 0, to at 1, affine in the factor, fast = precise, clamped = unclamped o clamp01, range/reference/per-element-factor forms, for ALL inputs; quaternion Lerp returns a unit quaternion parallel to the component lerp; slerp of unit quaternions outside the near-parallel band stays unit, has p.r = cos(t*theta) with theta = acos|p.q| (shorter arc, constant angular speed) and reaches p and +-q; Transform lerp = (lerp, slerp, lerp); all 8 Transition accessors (identity and arbitrary mapper g) equal lerp*(start,end,g(progress)). Integer Lerp: model IntLerp.ilerp = saturate(round-half-away((from*2^sh + num*(to-from))/2^sh)) with theorems (exact endpoints incl. range limits, result between the endpoints also for to<from, nearest-rounding bound); the extracted model agrees with the real u8/i8 code on every endpoint pair and with sampled 16..64-bit types, both formulas (1.8M cases quick). The fast formula subtracted in the integer type on the pinned tree (u8 to<from panicked / wrapped): repaired by a fix: commit.",
         "level_note": "Trusted: Coq kernel; stdlib real-number axioms as printed; symx translator; extraction (ExtrOcamlBasic only, Z kept as Coq's binary Z, decimal IO through two extracted helpers zpush/zdigits, no Extract Constant) + OCaml 4.13 + the line-parsing driver coq/extract/driver_c12.ml; float arithmetic is exact on the correspondence inputs by construction (dyadic factors, small endpoints). Float rounding of the real-valued formulas is not modelled.",
+        "trusted_extra": ["Coq extraction to OCaml of model/IntLerp.v (Require Import ExtrOcamlBasic only; Z, positive stay the extracted Coq datatypes; no Extract Constant / Extract Inductive of our own) plus extract/driver_c12.ml (decimal IO through the extracted zpush/zdigits) and the harness symx/src/corr12.rs"],
         "design_ref": "DESIGN.md section 7, C12",
         "assumptions": ["exact real arithmetic for float Lerp/slerp", "integer impls: model tied to the code by differential execution, not by translation"],
         "partial": ["integer Lerp impls are modelled by hand (Engine B): theorem about the model + exhaustive 8-bit / sampled wider correspondence, not a proof about the code"],
@@ -164,5 +166,33 @@ def extra_C12(tier, seed, ROOT, SYMX, sh):
             if mm: wit.append({"entry": "corr12:" + mm.group(1), "status": "differs", "input": {"from": mm.group(4), "to": mm.group(5), "factor": "%s/2^%s" % (mm.group(6), mm.group(7))},
                                "expected_by_verified_model": mm.group(9), "implementation": mm.group(8)})
     return problems, extra, wit
+
+def run_corr(name, model, tier, seed, ROOT, sh, what, rule):
+    """Generic Engine B leg: bin/corr <name> <Model> runs the extracted Coq model and the real code on the same inputs."""
+    import os, re
+    rc, out, dt = sh([os.path.join(ROOT, "bin", "corr"), name, model, tier, str(seed)], timeout=3000)
+    m = re.search(r"CORR name=\S+ cases=(\d+) disagreements=(\d+)", out)
+    cases = int(m.group(1)) if m else 0; dis = int(m.group(2)) if m else -1
+    dist = {}
+    try:
+        for l in open(os.path.join(ROOT, "build", "corr_" + name, "dist.txt")):
+            if l.startswith("DIST "): k, v = l[5:].strip().split("="); dist[k] = int(v)
+    except Exception: pass
+    extra = {"cases": cases, "disagreements": dis, "wall_s": round(dt, 1), "rule": rule, "input_distribution": dist,
+             "samples": [l[7:] for l in out.split("\n") if l.startswith("SAMPLE ")]}
+    problems = []; wit = []
+    if rc != 0 or dis != 0:
+        lines = [l for l in out.split("\n") if l.startswith("DISAGREE")]
+        problems.append({"kind": "correspondence", "what": what, "detail": (lines[:5] or [out[-800:]])})
+        for l in lines[:5]:
+            mm = re.match(r"DISAGREE impl=\[(.*) => (.*)\] model=\[.* => (.*)\]", l)
+            if mm: wit.append({"entry": "corr:" + name, "status": "differs", "input": mm.group(1), "expected_by_verified_model": mm.group(3), "implementation": mm.group(2)})
+    return problems, extra, wit
+
+def extra_C02(tier, seed, ROOT, SYMX, sh):
+    problems, extra, wit = run_corr("boolred", "BoolReduce", tier, seed, ROOT, sh,
+        "reduce_and/reduce_or/reduce_ne on a concrete bool/integer/float vector disagree with the extracted Coq model BoolReduce (all / any element non-zero)",
+        "every vector type x {bool, i8, u16, i32, u64, Wrapping<i16>, f32, f64}: all 2^n zero/non-zero patterns up to n=10 (quick) or n=16 (thorough); for wider vectors every pattern within 2 flips of all-zero / all-non-zero plus seeded random patterns; non-zero values cycle through extremes (MIN, MAX, -1, NaN, infinities, subnormals)")
+    return problems, {"traces_validated_against_impl": extra["cases"], "bool_reduce_correspondence": extra}, wit
 
 for _k in PROPS: PROPS[_k].setdefault("selfcheck", {"quick": 200, "thorough": 5000})
